@@ -62,7 +62,7 @@ class ForkExplorer(Explorer):
     if z3.is_bv_value(e): return e.as_signed_long()
     vals = []; blocked = []
     while s.feasible(*blocked):
-      x = s.solver.model().eval(e, model_completion=True).as_signed_long()
+      x = s.model().eval(e, model_completion=True).as_signed_long()
       vals.append(x); blocked.append(e != x)
       STATS.concretisations += 1
       if len(vals) > s.max_concretisations: raise BudgetExceeded("too many concretisations (fork mode)")
